@@ -516,12 +516,14 @@ def put_at(doc, path, v):
     return d
 
 
-# ------------------------------------------------------------------ open findings: exceptions that escape
+# ------------------------------------------------------------------ repaired findings: exceptions that used to escape
 
 def known_escapes(f, j, ctx, ign=False, depth=0, through=False):
-    """Names of the non-TypeError/ValueError exceptions that the OPEN findings let escape when document j is
+    """Names of the non-TypeError/ValueError exceptions that three REPAIRED defects let escape when document j is
     deserialized for declaration f: the causes below, reached without crossing a multi-field wrapper (a
-    wrapper counts any failure of an alternative as "does not match").
+    wrapper counts any failure of an alternative as "does not match").  Computed from the shape of the document,
+    not by running typedpy: it says where those exceptions would come from if a defect returned (the key of the
+    VIOLATION), and which documents exercise the trial of such an alternative inside a wrapper.
       IndexError           value[i] on a document shorter than the positional items (F9)
       InvalidOperation     Decimal(<non-numeric string>) in DecimalNumber.deserialize
       NotImplementedError  a TypedField over str (TimeString) offered a scalar that is not a string"""
@@ -578,7 +580,8 @@ def doc_escapes(c, d, ctx, depth=0, through_wrappers=False):
 
 
 def posfree(f):
-    """Ser/DeserExn.posfree: no positional container reachable without crossing a multi-field wrapper"""
+    """no positional container reachable without crossing a multi-field wrapper (statistics only: until F9 was
+    repaired this was a hypothesis of theorem C06_error_class)"""
     t = f["t"]
     if t in ("seqpos", "tuple"):
         return False
